@@ -39,7 +39,7 @@ func gen(t *rapid.T) Case {
 	c := Case{Project: p, CLI: rapid.IntRange(0, 14).Draw(t, "cli") == 0}
 	type cand struct {
 		class, name string
-		sites      int
+		sites       int
 	}
 	var cands, withSites []cand
 	for _, u := range p.Units {
@@ -87,7 +87,7 @@ func gen(t *rapid.T) Case {
 	case 0:
 		nn = rapid.StringMatching(`[a-z]`).Draw(t, "new1")
 	case 1:
-		nn = rapid.StringMatching(`[a-z][a-zA-Z]{` + fmt.Sprint(len(cd.name)-1) + `}`).Draw(t, "newSameLen")
+		nn = rapid.StringMatching(`[a-z][a-zA-Z]{`+fmt.Sprint(len(cd.name)-1)+`}`).Draw(t, "newSameLen")
 	case 2:
 		nn = rapid.StringMatching(`[a-z][a-zA-Z]{20,39}`).Draw(t, "newLong")
 	default:
@@ -97,6 +97,53 @@ func gen(t *rapid.T) Case {
 		nn += "Q"
 	}
 	c.New = nn
+	// sometimes clone a calling unit under a class name of the same length: two files then hold
+	// sites at identical (line, column) coordinates
+	if rapid.IntRange(0, 3).Draw(t, "cloneCaller") == 0 {
+		target := c.Class + "." + c.Old
+		for i, u := range p.Units {
+			if u.Kind != "Class" || u.FullName() == c.Class {
+				continue
+			}
+			calls := false
+			for _, f := range u.Funcs {
+				for _, e := range f.Events {
+					if e.Target == target && e.Resolve {
+						calls = true
+					}
+				}
+			}
+			if !calls {
+				continue
+			}
+			twin := "Q" + u.Name[1:]
+			if twin == u.Name {
+				twin = "W" + u.Name[1:]
+			}
+			clash := false
+			for _, f := range p.Files {
+				if strings.Contains(f.Text, twin) {
+					clash = true
+				}
+			}
+			if clash {
+				continue
+			}
+			re := regexp.MustCompile(`\b` + regexp.QuoteMeta(u.Name) + `\b`)
+			nu := u
+			nu.Name = twin
+			nu.Path = strings.TrimSuffix(u.Path, u.Name+".java") + twin + ".java"
+			nu.Funcs = append([]jgen.FuncTruth(nil), u.Funcs...)
+			for k := range nu.Funcs {
+				if nu.Funcs[k].IsCtor {
+					nu.Funcs[k].Name = twin
+				}
+			}
+			c.Project.Files = append(append([]jgen.File(nil), c.Project.Files...), jgen.File{Path: nu.Path, Text: re.ReplaceAllString(p.Files[i].Text, twin)})
+			c.Project.Units = append(append([]jgen.UnitTruth(nil), c.Project.Units...), nu)
+			break
+		}
+	}
 	return c
 }
 
